@@ -25,7 +25,7 @@ PLAN = {
         traces=[("c03", (2, 12))],
         seeds=dict(quick=1, thorough=3),
         mc=dict(quick=["MC_C03"]),
-        gen=dict(quick=["Gen_C03:2"], thorough=["Gen_C03:3"]),
+        gen=dict(quick=[("Gen_C03", "Gen_C03.cfg")], thorough=[("Gen_C03", "Gen_C03_T.cfg")]),
         rule="obs events over nested range expressions (7 forms, depth <= 3) on owned / literal / k-mer parents of "
              "word-boundary lengths incl. steps just past the end; TLC-enumerated expressions replayed",
     ),
@@ -47,7 +47,7 @@ PLAN = {
         traces=[("c06", (400, 3000))],
         seeds=dict(quick=1, thorough=4),
         mc=dict(quick=["MC_C06"]),
-        gen=dict(quick=["Gen_C06:2"], thorough=["Gen_C06:3"]),
+        gen=dict(quick=[("Gen_C06", "Gen_C06.cfg")], thorough=[("Gen_C06", "Gen_C06_T.cfg"), ("Gen_C06", "Gen_C06_T3.cfg")]),
         rule="random edit histories (push/extend/append/prepend/insert/remove/truncate/clear/clone/to_owned) on 6 "
              "registers with argument slices at random offsets, full view logged after every step; TLC-enumerated "
              "histories of depth <= 3 replayed",
@@ -85,7 +85,7 @@ PLAN = {
         traces=[("c11", (1, None)), ("c11all", (None, 2))],
         seeds=dict(quick=1, thorough=2),
         mc=dict(quick=["MC_C11"]),
-        gen=dict(quick=["Gen_C11:5"], thorough=["Gen_C11:7"]),
+        gen=dict(quick=[("Gen_C11", "Gen_C11.cfg")], thorough=[("Gen_C11", "Gen_C11_T.cfg")]),
         rule="itrun events (iter, into_iter, rev, windows, chunks, chain) with widths 1..n+2 on slices at offsets, "
              "plus step-wise itnew/itnext interleavings (the iterator state machine)",
     ),
